@@ -22,6 +22,7 @@ import (
 	"time"
 
 	"github.com/safing/portbase/api"
+	"github.com/safing/portbase/config"
 	"github.com/safing/portbase/database/record"
 	"github.com/safing/portbase/dataroot"
 	"github.com/safing/portbase/log"
@@ -40,7 +41,12 @@ type custom struct {
 
 type ptrErr struct{ msg string }
 
-func (e *ptrErr) Error() string { return e.msg }
+func (e *ptrErr) Error() string { return e.msg } // a nil receiver panics here (fmt's %s survives that)
+
+// strg: a Stringer whose String method dereferences its (possibly nil) receiver.
+type strg struct{ s string }
+
+func (x *strg) String() string { return x.s }
 
 type evilErr struct{}
 
@@ -56,6 +62,25 @@ type pvInfo struct {
 }
 
 var sentinelErr = errors.New("boom-err")
+
+// isCanceledErr matches context.Canceled through an Is method (no wrapping, no identity).
+type isCanceledErr struct{}
+
+func (isCanceledErr) Error() string        { return "aborted (is-canceled)" }
+func (isCanceledErr) Is(target error) bool { return target == context.Canceled }
+
+var (
+	wrapCanceled  = fmt.Errorf("lookup aborted: %w", context.Canceled)
+	joinCanceled  = errors.Join(errors.New("first"), context.Canceled)
+	wrapRestart   = fmt.Errorf("again: %w", modules.ErrRestartNow)
+	wrapDeadline  = fmt.Errorf("too late: %w", context.DeadlineExceeded)
+	wrapCleanExit = fmt.Errorf("bye: %w", modules.ErrCleanExit)
+	innerModErr   = &modules.ModuleError{Message: "panic: inner", ModuleName: "Z", TaskName: "inner", TaskType: "worker", Severity: "panic", PanicValue: "inner", StackTrace: "goroutine 0 [inner]"}
+)
+
+func sameErr(want error) func(v any) bool {
+	return func(v any) bool { e, ok := v.(error); return ok && e == want }
+}
 
 func isRuntimeErr(v any, sub string) bool {
 	re, ok := v.(runtime.Error)
@@ -80,6 +105,22 @@ var pvals = map[string]pvInfo{
 	"evil":   {func() { panic(evilErr{}) }, func(v any) bool { _, ok := v.(evilErr); return ok }, "err"},
 	"abort":  {func() { panic(http.ErrAbortHandler) }, func(v any) bool { return v == http.ErrAbortHandler }, "err"},
 	"slice":  {func() { panic([]int{1, 2}) }, func(v any) bool { return reflect.DeepEqual(v, []int{1, 2}) }, "other"},
+	// error values that are, wrap or match the sentinels the managed-execution code compares returned errors with
+	"canc":     {func() { panic(context.Canceled) }, sameErr(context.Canceled), "err.canceled"},
+	"wcanc":    {func() { panic(wrapCanceled) }, sameErr(wrapCanceled), "err.canceled"},
+	"iscanc":   {func() { panic(isCanceledErr{}) }, func(v any) bool { _, ok := v.(isCanceledErr); return ok }, "err.canceled"},
+	"joincanc": {func() { panic(joinCanceled) }, sameErr(joinCanceled), "err.canceled"},
+	"rst":      {func() { panic(modules.ErrRestartNow) }, sameErr(modules.ErrRestartNow), "err.restart"},
+	"wrst":     {func() { panic(wrapRestart) }, sameErr(wrapRestart), "err.restart"},
+	"dl":       {func() { panic(context.DeadlineExceeded) }, sameErr(context.DeadlineExceeded), "err.deadline"},
+	"wdl":      {func() { panic(wrapDeadline) }, sameErr(wrapDeadline), "err.deadline"},
+	"cexit":    {func() { panic(modules.ErrCleanExit) }, sameErr(modules.ErrCleanExit), "err.cleanexit"},
+	"wcexit":   {func() { panic(wrapCleanExit) }, sameErr(wrapCleanExit), "err.cleanexit"},
+	// a panic value that is itself a panic error of package modules (re-panicking what a nested RunWorker returned)
+	"moderr": {func() { panic(innerModErr) }, func(v any) bool { e, ok := v.(*modules.ModuleError); return ok && e == innerModErr }, "err"},
+	// typed nil pointers whose Error / String method panics when called directly (the `var e *T; return e` slip)
+	"nilerrptr": {func() { panic((*ptrErr)(nil)) }, func(v any) bool { p, ok := v.(*ptrErr); return ok && p == nil }, "err"},
+	"nilstrg":   {func() { panic((*strg)(nil)) }, func(v any) bool { p, ok := v.(*strg); return ok && p == nil }, "other"},
 }
 
 // clsOf classifies a recovered panic value the way the model does.
@@ -96,7 +137,16 @@ func clsOf(v any) string {
 	case custom:
 		return "struct"
 	case error:
-		_ = x
+		switch {
+		case errors.Is(x, context.Canceled):
+			return "err.canceled"
+		case errors.Is(x, modules.ErrRestartNow):
+			return "err.restart"
+		case errors.Is(x, context.DeadlineExceeded):
+			return "err.deadline"
+		case errors.Is(x, modules.ErrCleanExit):
+			return "err.cleanexit"
+		}
 		return "err"
 	}
 	return "other"
@@ -157,8 +207,8 @@ type item struct {
 	free       bool // burst item: the function ends at once
 	entered    chan int
 	release    chan struct{}
-	done       chan error // blocking variants: the returned error
-	http       chan int   // api kinds: the response status
+	done       chan error  // blocking variants: the returned error
+	http       chan string // api kinds: the response status ("d" appended: the body is the dev-mode page)
 	task       *modules.Task
 	afterWrite bool
 	lastOut    outcome
@@ -220,19 +270,29 @@ type child struct {
 	notifyIn int32
 	burstSeq int
 	scratch  string
+
+	manual        bool // the scenario configured the error channel itself (`chan`): only `recv` ops read it
+	parkStarted   int  // consumers started by `park`
+	parkCollected int  // of these: reports already printed
+	parkedCh      chan parkedRep
+	wedged        bool // a wait has expired: the verdict of this case is settled, later waits are short
 }
 
 const (
-	entryTimeout  = 75 * time.Second // longer than maxExecutionWait (see body)
-	finishTimeout = 30 * time.Second
-	settleTimeout = 10 * time.Second
-	stopTimeout   = 12 * time.Second // modules' own wait for workers when stopping (default 1 min)
-	slowStop      = 6 * time.Second  // a Shutdown slower than this waited for work that never finished
+	wedgedPatience      = 300 * time.Millisecond
+	entryTimeout        = 75 * time.Second // longer than maxExecutionWait (see body)
+	finishTimeout       = 30 * time.Second
+	manualFinishTimeout = 12 * time.Second // scenarios with a small error channel: a hang is the expected failure mode
+	lockTimeout         = 8 * time.Second  // GetLastReportedError takes reportingLock, which a blocked Report() holds
+	settleTimeout       = 10 * time.Second
+	stopTimeout         = 12 * time.Second // modules' own wait for workers when stopping (default 1 min)
+	slowStop            = 6 * time.Second  // a Shutdown slower than this waited for work that never finished
 )
 
 func childMain() {
 	c := &child{resp: bufio.NewWriter(os.NewFile(3, "resp")), items: map[string]*item{}, subject: "A",
-		reports: make(chan *modules.ModuleError, 1<<14), scratch: os.Getenv("HX_C06_DIR")}
+		reports: make(chan *modules.ModuleError, 1<<14), scratch: os.Getenv("HX_C06_DIR"),
+		parkedCh: make(chan parkedRep, 256)}
 	modules.SetStdErrReporting(false)
 	modules.SetErrorReportingChannel(c.reports)
 	modules.VerifC06SetStopTimeout(stopTimeout)
@@ -365,6 +425,71 @@ func (c *child) othersClean() bool {
 	return true
 }
 
+// patience: how long to wait for something that should happen at once. After the first expiry in this child the
+// case is lost anyway (every expiry is reported); further waits are cut short.
+func (c *child) patience(d time.Duration) time.Duration {
+	if c.wedged && d > wedgedPatience {
+		return wedgedPatience
+	}
+	if c.manual && d == finishTimeout {
+		return manualFinishTimeout
+	}
+	return d
+}
+
+func (c *child) waitUntil(d time.Duration, f func() bool) bool { return waitUntil(c.patience(d), f) }
+
+func (c *child) after(d time.Duration) <-chan time.Time { return time.After(c.patience(d)) }
+
+// lastStr is GetLastReportedError, guarded: it takes the lock that Report() holds while it runs.
+func (c *child) lastStr() string {
+	ch := make(chan string, 1)
+	go func() { ch <- c.repStr(modules.GetLastReportedError()) }()
+	select {
+	case s := <-ch:
+		return s
+	case <-c.after(lockTimeout):
+		c.wedged = true
+		return "blocked"
+	}
+}
+
+func (c *child) chLen() int { return len(c.reports) }
+
+// parkedBlocked counts the consumers started by `park` that are blocked in their receive.
+func parkedBlocked() int {
+	buf := make([]byte, 1<<20)
+	buf = buf[:runtime.Stack(buf, true)]
+	n := 0
+	for _, g := range strings.Split(string(buf), "\n\n") {
+		if strings.Contains(g, "main.parkRecv") && strings.Contains(strings.SplitN(g, "\n", 2)[0], "[chan receive") {
+			n++
+		}
+	}
+	return n
+}
+
+// parkRecv: a consumer blocked in a receive. Go serves blocked receivers first come, first served, so the
+// consumers get the reports in the order in which they were parked; `idx` keeps that order for printing.
+type parkedRep struct {
+	idx int
+	me  *modules.ModuleError
+}
+
+func parkRecv(idx int, from <-chan *modules.ModuleError, to chan<- parkedRep) {
+	me := <-from
+	to <- parkedRep{idx, me}
+}
+
+func (c *child) repStr(me *modules.ModuleError) string {
+	s := repStr(me)
+	// every item of a scenario runs on the subject module (hooks: the hooking module)
+	if me != nil && me.Severity == "panic" && me.TaskType != "module-control" && me.ModuleName != c.subject {
+		s += "!mod=" + me.ModuleName
+	}
+	return s
+}
+
 func repStr(me *modules.ModuleError) string {
 	if me == nil {
 		return "-"
@@ -385,18 +510,40 @@ func repStr(me *modules.ModuleError) string {
 
 // drain returns the reports received on the module error channel since the last call, in order.
 func (c *child) drain() string {
+	if c.manual {
+		return "-"
+	}
+	return c.recv(1 << 30)
+}
+
+// recv takes up to k reports out of the channel without waiting (preceded by what parked consumers received).
+func (c *child) recv(k int) string {
 	var rs []string
-	for {
-		select {
-		case me := <-c.reports:
-			rs = append(rs, repStr(me))
-		default:
-			if len(rs) == 0 {
-				return "-"
-			}
-			return strings.Join(rs, "+")
+	if c.parkStarted > 0 {
+		// a parked consumer that is no longer blocked in its receive has got a report: wait until it has handed it on
+		c.waitUntil(settleTimeout, func() bool { return len(c.parkedCh) == c.parkStarted-c.parkCollected-parkedBlocked() })
+		var got []parkedRep
+		for len(c.parkedCh) > 0 {
+			got = append(got, <-c.parkedCh)
+			c.parkCollected++
+		}
+		sort.Slice(got, func(i, j int) bool { return got[i].idx < got[j].idx })
+		for _, g := range got {
+			rs = append(rs, c.repStr(g.me))
 		}
 	}
+	for ; k > 0; k-- {
+		select {
+		case me := <-c.reports:
+			rs = append(rs, c.repStr(me))
+		default:
+			k = 0
+		}
+	}
+	if len(rs) == 0 {
+		return "-"
+	}
+	return strings.Join(rs, "+")
 }
 
 // drainSorted is drain for ops during which several goroutines report concurrently.
@@ -628,7 +775,7 @@ func (c *child) do(line string) string {
 		if err != nil {
 			// Start returns on the first failing report while other routines may still be running
 			// (that is C01's business); wait until the healthy modules have come to rest.
-			waitUntil(settleTimeout, func() bool {
+			c.waitUntil(settleTimeout, func() bool {
 				st := modules.GetStatus()
 				for _, m := range c.mods {
 					if tokFails(m.prep) || tokFails(m.start) || st == nil || st.Modules[m.name] == nil {
@@ -646,14 +793,14 @@ func (c *child) do(line string) string {
 			// registered its hook; that healthy hook run is then a short-lived worker of the api module.
 			// Let it pass: wait until the api module has been idle for a while.
 			idleSince := time.Now()
-			waitUntil(settleTimeout, func() bool {
+			c.waitUntil(settleTimeout, func() bool {
 				if c.counters() != (cnt{}) {
 					idleSince = time.Now()
 				}
 				return time.Since(idleSince) > 60*time.Millisecond
 			})
 		}
-		return fmt.Sprintf("start ret=%s reps=%s", ctrlRetStr(err), c.collapseRelaunched(c.drain(), runsBefore))
+		return fmt.Sprintf("start ret=%s reps=%s ch=%d", ctrlRetStr(err), c.collapseRelaunched(c.drain(), runsBefore), c.chLen())
 
 	case "manage":
 		if len(f) != 1 || !c.started || !c.mgmt {
@@ -662,7 +809,7 @@ func (c *child) do(line string) string {
 		runsBefore := c.snapshotRuns()
 		err := modules.ManageModules()
 		c.waitCtrlIdle()
-		return fmt.Sprintf("manage ret=%s reps=%s st=%s", ctrlRetStr(err), c.collapseRelaunched(c.drainSorted(), runsBefore), c.statuses())
+		return fmt.Sprintf("manage ret=%s reps=%s st=%s ch=%d", ctrlRetStr(err), c.collapseRelaunched(c.drainSorted(), runsBefore), c.statuses(), c.chLen())
 
 	case "shutdown":
 		if len(f) != 1 || !c.started {
@@ -675,19 +822,114 @@ func (c *child) do(line string) string {
 				return "shutdown-with-held-work"
 			}
 		}
-		err := modules.Shutdown()
+		// Shutdown waits at most stopTimeout per module for work that does not finish; it has no other reason to block
+		var err error
+		sdDone := make(chan error, 1)
+		go func() { sdDone <- modules.Shutdown() }()
+		limit := time.Duration(len(c.mods)+2) * (stopTimeout + 3*time.Second)
+		if c.wedged {
+			limit = stopTimeout + 5*time.Second
+		}
+		select {
+		case err = <-sdDone:
+		case <-time.After(limit):
+			c.down = true
+			return "shutdown noreturn"
+		}
 		c.down = true
 		slow := "no"
 		if time.Since(t0) > slowStop {
 			slow = "yes"
 		}
-		return fmt.Sprintf("shutdown ret=%s reps=%s slow=%s st=%s", ctrlRetStr(err), c.drainSorted(), slow, c.statuses())
+		return fmt.Sprintf("shutdown ret=%s reps=%s slow=%s st=%s ch=%d", ctrlRetStr(err), c.drainSorted(), slow, c.statuses(), c.chLen())
 
 	case "status":
 		if len(f) != 1 {
 			return "bad-op"
 		}
-		return fmt.Sprintf("cnt=%s last=%s", c.counters(), repStr(modules.GetLastReportedError()))
+		return fmt.Sprintf("cnt=%s last=%s ch=%d", c.counters(), c.lastStr(), c.chLen())
+
+	case "devmode": // devmode on|off: config.SetConfigOption("core/devMode", …); not while a request is in flight
+		if len(f) != 2 || !c.apiMode || !c.startOK || (f[1] != "on" && f[1] != "off") {
+			return "bad-op"
+		}
+		for _, it := range c.items {
+			if it.held {
+				return "bad-op"
+			}
+		}
+		if err := config.SetConfigOption(config.CfgDevModeKey, f[1] == "on"); err != nil {
+			return "err " + strings.ReplaceAll(err.Error(), " ", "_")
+		}
+		// the "config change" event runs the api module's hook as a short-lived worker: let it pass
+		idleSince := time.Now()
+		c.waitUntil(settleTimeout, func() bool {
+			if c.counters() != (cnt{}) {
+				idleSince = time.Now()
+			}
+			return time.Since(idleSince) > 60*time.Millisecond
+		})
+		return "ok"
+
+	case "chan": // chan unset|<capacity>: SetErrorReportingChannel before anything runs; from now on only `recv` reads it
+		if len(f) != 2 || c.started || c.manual {
+			return "bad-op"
+		}
+		if f[1] == "unset" {
+			c.manual, c.reports = true, nil
+			modules.SetErrorReportingChannel(nil)
+			return "ok"
+		}
+		n, err := strconv.Atoi(f[1])
+		if err != nil || n < 0 || n > 64 || strconv.Itoa(n) != f[1] {
+			return "bad-op"
+		}
+		c.manual, c.reports = true, make(chan *modules.ModuleError, n)
+		modules.SetErrorReportingChannel(c.reports)
+		return "ok"
+
+	case "recv": // recv <k>|all: the consumer of the error channel reads what is there (up to k reports)
+		if len(f) != 2 || !c.manual || c.reports == nil {
+			return "bad-op"
+		}
+		k := 1 << 20
+		if f[1] != "all" {
+			n, err := strconv.Atoi(f[1])
+			if err != nil || n < 0 || strconv.Itoa(n) != f[1] {
+				return "bad-op"
+			}
+			k = n
+		}
+		rs := c.recv(k)
+		n := 0
+		if rs != "-" {
+			n = len(strings.Split(rs, "+"))
+		}
+		return fmt.Sprintf("recv n=%d reps=%s ch=%d", n, rs, c.chLen())
+
+	case "recvn": // like `recv all`, but only the number of reports is printed (after concurrent work)
+		if len(f) != 1 || !c.manual || c.reports == nil {
+			return "bad-op"
+		}
+		rs := c.recv(1 << 20)
+		n := 0
+		if rs != "-" {
+			n = len(strings.Split(rs, "+"))
+		}
+		return fmt.Sprintf("recvn n=%d ch=%d", n, c.chLen())
+
+	case "park": // a consumer blocks in a receive on the (empty) channel; what it gets is printed by the next recv
+		if len(f) != 1 || !c.manual || c.reports == nil || c.chLen() != 0 {
+			return "bad-op"
+		}
+		// every consumer parked earlier is either still blocked or has received its report
+		want := parkedBlocked() + 1
+		c.parkStarted++
+		go parkRecv(c.parkStarted, c.reports, c.parkedCh)
+		if !c.waitUntil(settleTimeout, func() bool { return parkedBlocked() >= want }) {
+			return "park timeout"
+		}
+		return fmt.Sprintf("park ok waiting=%d", want)
 
 	case "settle": // wait (in the implementation's favour) until no managed work is left, then read the counters
 		if len(f) != 1 {
@@ -698,7 +940,7 @@ func (c *child) do(line string) string {
 		zero := cnt{}
 		var k cnt
 		clean := true
-		waitUntil(settleTimeout, func() bool {
+		c.waitUntil(settleTimeout, func() bool {
 			k = c.counters()
 			clean = c.apiMode || c.othersClean()
 			return k == zero && clean
@@ -728,7 +970,7 @@ func (c *child) do(line string) string {
 			}
 		}
 		it := &item{id: f[1], kind: f[2], outs: outs, entered: make(chan int, 64), release: make(chan struct{}, 64),
-			done: make(chan error, 1), http: make(chan int, 1)}
+			done: make(chan error, 1), http: make(chan string, 1)}
 		if len(f) == 5 {
 			switch f[4] {
 			case "onstop":
@@ -749,7 +991,7 @@ func (c *child) do(line string) string {
 		if entry == "ok" && (strings.HasSuffix(it.kind, "-med") || strings.HasSuffix(it.kind, "-low")) {
 			// the microtask scheduler closes the clearance signal first and raises the global counter afterwards
 			// (microtasks.go:302-305), so the function can be entered a moment before the counter shows it
-			waitUntil(settleTimeout, func() bool { return c.counters().g > before.g })
+			c.waitUntil(settleTimeout, func() bool { return c.counters().g > before.g })
 		}
 		return "spawn " + entry + " cnt=" + c.counters().String()
 
@@ -787,7 +1029,7 @@ func (c *child) do(line string) string {
 			}
 			c.burstSeq++
 			its = append(its, &item{id: fmt.Sprintf("b%d-%d", c.burstSeq, k), kind: kv[0], outs: outs, free: true,
-				entered: make(chan int, 256), release: make(chan struct{}, 1), done: make(chan error, 1), http: make(chan int, 1)})
+				entered: make(chan int, 256), release: make(chan struct{}, 1), done: make(chan error, 1), http: make(chan string, 1)})
 		}
 		for _, it := range its {
 			if !c.launch(it) {
@@ -800,8 +1042,9 @@ func (c *child) do(line string) string {
 			res[i] = "-"
 			select {
 			case <-it.entered:
-			case <-time.After(entryTimeout):
+			case <-c.after(entryTimeout):
 				res[i] = "noentry"
+				c.wedged = true
 				continue
 			}
 			switch {
@@ -812,29 +1055,31 @@ func (c *child) do(line string) string {
 					o := it.lastOut
 					it.mu.Unlock()
 					res[i] = retStr(err, o)
-				case <-time.After(finishTimeout):
+				case <-c.after(finishTimeout):
 					res[i] = "noreturn"
+					c.wedged = true
 				}
 			case strings.HasPrefix(it.kind, "api-"):
 				select {
 				case code := <-it.http:
-					res[i] = strconv.Itoa(code)
-				case <-time.After(finishTimeout):
+					res[i] = code
+				case <-c.after(finishTimeout):
 					res[i] = "noreturn"
+					c.wedged = true
 				}
 			}
 		}
 		zero := cnt{}
-		waitUntil(settleTimeout, func() bool { return c.counters() == zero })
+		c.waitUntil(settleTimeout, func() bool { return c.counters() == zero })
 		runs := make([]string, len(its))
 		for i, it := range its {
 			if it.task != nil {
-				waitUntil(finishTimeout, func() bool { return !it.task.VerifC06Executing() })
+				c.waitUntil(finishTimeout, func() bool { return !it.task.VerifC06Executing() })
 			}
 			runs[i] = strconv.Itoa(int(atomic.LoadInt32(&it.runs)))
 		}
-		return fmt.Sprintf("burst res=%s runs=%s reps=%s cnt=%s", strings.Join(res, ","), strings.Join(runs, ","),
-			c.drainSorted(), c.counters())
+		return fmt.Sprintf("burst res=%s runs=%s reps=%s cnt=%s ch=%d", strings.Join(res, ","), strings.Join(runs, ","),
+			c.drainSorted(), c.counters(), c.chLen())
 
 	case "finish": // finish <id>: let the held user function end with its programmed outcome, wait for the item
 		if len(f) != 2 || c.items[f[1]] == nil || !c.items[f[1]].held {
@@ -857,7 +1102,7 @@ func knownKind(k string) bool { return kinds[k] }
 // routine's goroutine has run its deferred ctrlFuncRunning.UnSet(); wait for that (bounded) so that the
 // next reading is not taken in between.
 func (c *child) waitCtrlIdle() {
-	waitUntil(settleTimeout, func() bool {
+	c.waitUntil(settleTimeout, func() bool {
 		st := modules.GetStatus()
 		return st == nil || st.Total.CtrlFuncRunning == 0
 	})
@@ -868,7 +1113,8 @@ func (c *child) awaitEntry(it *item) string {
 	case <-it.entered:
 		it.held = true
 		return "ok"
-	case <-time.After(entryTimeout):
+	case <-c.after(entryTimeout):
+		c.wedged = true
 		return "noentry"
 	}
 }
@@ -1048,7 +1294,11 @@ func (c *child) launch(it *item) bool {
 			rec := httptest.NewRecorder()
 			req := httptest.NewRequest(http.MethodGet, path, nil)
 			api.VerifC06Serve(rec, req)
-			it.http <- rec.Code
+			code := strconv.Itoa(rec.Code)
+			if body := rec.Body.String(); strings.Contains(body, "Internal Server Error: ") && strings.Contains(body, "goroutine ") {
+				code += "d"
+			}
+			it.http <- code
 		}()
 	default:
 		return false
@@ -1077,19 +1327,19 @@ func (c *child) finish(it *item) string {
 		select {
 		case err := <-it.done:
 			ret = retStr(err, o)
-		case <-time.After(finishTimeout):
+		case <-c.after(finishTimeout):
 			ret, syn = "noreturn", "timeout"
 		}
 	case strings.HasPrefix(it.kind, "api-"):
 		select {
 		case code := <-it.http:
-			httpS = strconv.Itoa(code)
-		case <-time.After(finishTimeout):
+			httpS = code
+		case <-c.after(finishTimeout):
 			httpS, syn = "noreturn", "timeout"
 		}
 	case it.kind == "svc":
 		// either the service worker runs its function again, or it ends (worker counter drops)
-		deadline := time.After(finishTimeout)
+		deadline := c.after(finishTimeout)
 		tick := time.NewTicker(200 * time.Microsecond)
 		defer tick.Stop()
 	loop:
@@ -1117,24 +1367,27 @@ func (c *child) finish(it *item) string {
 			}
 		}
 	case strings.HasPrefix(it.kind, "task-"):
-		if !waitUntil(finishTimeout, func() bool { return c.counters().t < before.t }) {
+		if !c.waitUntil(finishTimeout, func() bool { return c.counters().t < before.t }) {
 			syn = "timeout"
 		}
-		if waitUntil(finishTimeout, func() bool { return !it.task.VerifC06Executing() }) {
+		if c.waitUntil(finishTimeout, func() bool { return !it.task.VerifC06Executing() }) {
 			exec = "false"
 			it.busy = false
 		} else {
 			exec, syn = "true", "timeout"
 		}
 	case strings.HasPrefix(it.kind, "mt-start-"):
-		if !waitUntil(finishTimeout, func() bool { k := c.counters(); return k.m < before.m && k.g < before.g }) {
+		if !c.waitUntil(finishTimeout, func() bool { k := c.counters(); return k.m < before.m && k.g < before.g }) {
 			syn = "timeout"
 		}
 	default: // startworker, hooks: worker counter drops
-		if !waitUntil(finishTimeout, func() bool { return c.counters().w < before.w }) {
+		if !c.waitUntil(finishTimeout, func() bool { return c.counters().w < before.w }) {
 			syn = "timeout"
 		}
 	}
-	return fmt.Sprintf("finish ret=%s http=%s next=%s exec=%s sync=%s reps=%s last=%s cnt=%s", ret, httpS, next, exec, syn,
-		c.drain(), repStr(modules.GetLastReportedError()), c.counters())
+	if syn == "timeout" {
+		c.wedged = true
+	}
+	return fmt.Sprintf("finish ret=%s http=%s next=%s exec=%s sync=%s reps=%s last=%s cnt=%s ch=%d", ret, httpS, next, exec, syn,
+		c.drain(), c.lastStr(), c.counters(), c.chLen())
 }
